@@ -71,8 +71,11 @@ func (x *Exec) callFunc(st *State, callee *ssa.Function, fnval *FnVal, args []Va
 	if callee.Blocks == nil {
 		limitf("call of %s which has no body", key)
 	}
-	if x.E.isRecursive(callee) || x.hasLoops(callee) {
-		limitf("%s calls %s, which needs a contract (it has loops or is recursive)", x.key, key)
+	if x.E.isRecursive(callee) {
+		limitf("%s calls %s, which needs a contract (it is recursive)", x.key, key)
+	}
+	if x.hasLoops(callee) && !(ct != nil && ct.Inline) {
+		limitf("%s calls %s, which needs a contract (it has loops)", x.key, key)
 	}
 	if fnval == nil {
 		fnval = &FnVal{Fn: callee}
@@ -346,6 +349,10 @@ func (x *Exec) builtin(st *State, call *ssa.Call, b *ssa.Builtin, k retK) {
 		v := arg(0)
 		if _, ok := c.Args[0].Type().Underlying().(*types.Map); ok {
 			limitf("len of map")
+		}
+		if v.Elems != nil {
+			k(st, []Val{{S: "Int", T: fmt.Sprint(len(v.Elems))}})
+			return
 		}
 		t := x.term(st, v, false)
 		k(st, []Val{{S: "Int", T: fmt.Sprintf("(%s.len %s)", v.S, t)}})
